@@ -560,12 +560,16 @@ def generations():
         secrets = ['secret_%d_%d' % (rnd, i) for i in range(2)]
 
         a.register_function('plugin', _make_plugin(tuple(secrets)))
-        a.load_script_from_string(pytext, fn=impl.SCRIPT_FN)
         a.assert_fact(a.atom('kept'), [a.atom('by_a')])
         x = a.variable()
-        n = sum(1 for _ in a.query('uses', [x]))
-        if n != 4:
-            bad.append('round %d: the first engine answers uses/1 %d times instead of 4' % (rnd, n))
+        if rnd % 2:
+            # odd rounds: the engine also has a loaded script
+            a.load_script_from_string(pytext, fn=impl.SCRIPT_FN)
+            n, want = sum(1 for _ in a.query('uses', [x])), 4
+        else:
+            n, want = sum(1 for _ in a.query('plugin', [x])) + sum(1 for _ in a.query('kept', [x])), 3
+        if n != want:
+            bad.append('round %d: the first engine gives %d answers instead of %d' % (rnd, n, want))
         del a, x
         gc.collect()
         fresh = [impl.YP() for _ in range(40)]
